@@ -6,31 +6,22 @@
  * soundness  (spec => result): the existentials are instantiated at the arbitrary ghost indices GN, GS (holds for every index)
  * completeness (result => spec): the existentials are witnessed by ghost outputs of the shims (G_find_r: index found by find,
  *   G_sub_pos: start of the segment last taken by substr) */
-#define LEX_PRE \
-__CPROVER_requires(IORA_TRUE && p.n <= IORA_SV_MAXLEN && __CPROVER_is_fresh(p.p, p.n)) \
-__CPROVER_assigns(G_find_r, G_sub_pos)
-
 /* proof "lex_safety": every built-in check (bounds, pointer, overflow incl. unsigned index arithmetic), shim preconditions, frame, invariant, variant */
 bool lexicallyRejected_safety(iora_sv p)
 LEX_PRE
-/* L0 */ __CPROVER_ensures(p.n == 0 ==> !__CPROVER_return_value)
+LEX_ENS_EMPTY
 ;
 
 /* proof "lex_sound": spec => rejected */
 bool lexicallyRejected_sound(iora_sv p)
 LEX_PRE
-/* L1 */ __CPROVER_ensures((p.n > 0 && p.p[0] == (char)47) ==> __CPROVER_return_value)
-/* L2 */ __CPROVER_ensures((GN < p.n && p.p[GN] == (char)0) ==> __CPROVER_return_value)
-/* L3 */ __CPROVER_ensures((GN < p.n && p.p[GN] == (char)92) ==> __CPROVER_return_value)
-/* L4 */ __CPROVER_ensures(DOTDOT_AT(p, GS) ==> __CPROVER_return_value)
+LEX_ENS_SOUND
 ;
 
-/* proof "lex_complete": rejected => spec (no built-in checks: they are in lex_sound) */
+/* proof "lex_complete": rejected => spec (no built-in checks: they are in lex_safety) */
 bool lexicallyRejected_complete(iora_sv p)
 LEX_PRE
-/* L5 */ __CPROVER_ensures(__CPROVER_return_value ==> (p.n > 0 && ((p.p[0] == (char)47)
-            | ((G_find_r < p.n) & ((RD(p, G_find_r) == (char)0) | (RD(p, G_find_r) == (char)92)))
-            | DOTDOT_NZ(p, G_sub_pos))))
+LEX_ENS_COMPLETE
 ;
 
 void h_lex(void)
